@@ -1413,6 +1413,13 @@ def selftest():
     case("C08 stale cache", "Trace_History", "Trace_History.cfg", "VIOLATION-HIST", ev, 2, setf(["view", "cached"], lambda v: [{"raw0": [1, 120, 0], "type": 1, "class": 1}]))
     case("C09 effect", "Trace_History", "Trace_History.cfg", "VIOLATION-HIST", ev, 2, setf(["o", "rec", "r", "ttl"], lambda v: [0, 0, 0, 78]))
     case("C10 failed op changed", "Trace_History", "Trace_History.cfg", "VIOLATION-HIST", ev, 3, setf(["post", 1], lambda v: v ^ 1))
+    # C13 on a nearly full packet: the record fits exactly; a recorded refusal must be rejected
+    tih = [h for h in H.text_insert_histories() if len(json.loads(h)["pkt"]) > 8000][4:5]
+    ev13 = [l for g in vlib.drive_groups(tih) for l in g]
+
+    def refuse(e):
+        e["res"], e["e"], e["post"] = "err", "Packet too large", e["pre"]
+    case("C13 fitting record refused", "Trace_History", "Trace_History.cfg", "VIOLATION-HIST", ev13, 0, refuse)
     case("transcription: bytes", "Trace_ObjectImpl", "Trace_ObjectImpl.cfg", "NOTE-IMPL", ev, 1, setf(["subs", 0, "bytes", 14], lambda v: v ^ 1))
     case("transcription: offsets", "Trace_ObjectImpl", "Trace_ObjectImpl.cfg", "NOTE-IMPL", ev, 1, setf(["subs", 0, "view", "oar"], lambda v: [v[0] + 1]))
     case("transcription: cursor", "Trace_ObjectImpl", "Trace_ObjectImpl.cfg", "NOTE-IMPL", ev, 1, setf(["subs", 0, "obs", "next"], lambda v: v + 1))
